@@ -196,6 +196,51 @@ define(globals(), 'C13', 'proxy_discards_and_reconnects', ['cut', 'depth'], "ret
                            'the gateway discarded; the next read (fresh connection) returns the correct data', outside='poll.run (threads, sleeps)')
 
 
+# ---- the proxy's own List Identity handshake on a (re)connection is part of "a use": a fault there must also discard the connection -----------
+def _proxy_handshake_length():
+    sim.RANDOM.n = 1000
+    made = cli.prepare([dict()], tags=TAGS)
+    via = get_attribute.proxy('fake', timeout=1, depth=1)
+    with via:
+        pass
+    return len(made[0][0].out)
+
+
+PROXY_HANDSHAKE = _proxy_handshake_length()         # Register reply (28) + List Identity reply
+
+
+def do_proxy_handshake(cut):
+    sim.RANDOM.n = 1000
+    sim.attribute('A').value[:] = [1, 2, 3, 4, 5, 6]
+    cut = concretize(cut, PROXY_HANDSHAKE)
+    cli.prepare([dict(cut=cut), dict()], tags=TAGS)
+    via = get_attribute.proxy('fake', timeout=1, depth=1)               # no identity_default: List Identity on every (re)connection
+    failed = False
+    try:
+        with via:
+            list(via.read(['A[0-3]']))
+    except Exception:
+        failed = True
+    ok = failed and via.gateway is None                                  # the cut lies inside the handshake: the use fails, connection discarded
+    with via:
+        second = list(via.read(['A[0-3]', ('@2/1/1', 'INT')]))
+    return ok and [list(v) for v in second] == [[1, 2, 3, 4], [1, 2, 3, 4, 5, 6]] and via.gateway is not None
+
+
+define(globals(), 'C13', 'proxy_handshake_fault_discards_quick', ['cut'], "return do_proxy_handshake(28 + 17 * cut)", ['0 <= cut < %d' % ((PROXY_HANDSHAKE - 28 + 16) // 17)],
+       timeout=3000, path_timeout=600, drives=DRIVES + ['cpppo.server.enip.get_attribute.proxy.open_gateway', 'cpppo.server.enip.get_attribute.proxy.list_identity_details',
+                                                        'cpppo.server.enip.get_attribute.proxy.close_gateway', 'cpppo.server.enip.get_attribute.proxy.__enter__'],
+       stubs=STUBS, bounds='proxy without identity_default: the server-to-client stream of a new connection is cut at every 17th offset inside the List Identity reply '
+                           '(right after the Register reply) that open_gateway requests: the use raises, the gateway is discarded, and the next use (fresh connection) '
+                           'returns the correct data', outside='other offsets (thorough tier)')
+define(globals(), 'C13', 'proxy_handshake_fault_discards', ['cut'], "return do_proxy_handshake(28 + cut)", ['0 <= cut < %d' % (PROXY_HANDSHAKE - 28)],
+       tier='thorough', timeout=6000, path_timeout=600, drives=DRIVES + ['cpppo.server.enip.get_attribute.proxy.open_gateway', 'cpppo.server.enip.get_attribute.proxy.list_identity_details',
+                                                        'cpppo.server.enip.get_attribute.proxy.close_gateway', 'cpppo.server.enip.get_attribute.proxy.__enter__'],
+       stubs=STUBS, bounds='proxy without identity_default: the server-to-client stream of a new connection is cut at EVERY offset inside the List Identity reply '
+                           '(%d bytes, right after the Register reply) that open_gateway requests: the use raises, the gateway is discarded, and the next use '
+                           '(fresh connection) returns the correct data' % (PROXY_HANDSHAKE - 28), outside='faults in the Register reply (the connector is never constructed)')
+
+
 # ---- a reply lost ENTIRELY while later replies still arrive (the dangerous case for mis-pairing) ---------------------------------------------
 OPS6 = ["A[0]", "A[1]", "A[2]", "A[3]"]
 DROP_CFG = [(2, 0), (3, 60), (2, 100), (0, 60), (1, 0)]       # (depth, multiple): singles, bundles of 2, bundles of 3, synchronous bundles
